@@ -1418,6 +1418,10 @@ def control_conditions(P, fn, b, expand_helpers=True, _depth=0):
                                     c3["cond"] = (cc[0], subst_params(cc[1], mapping)) + tuple(cc[2:])
                                 c3["sw"] = r["sw"]
                                 rep.append(c3)
+            if rep is None and cd[0] == "cmp" and cd[1] in ("eq", "ne") and len(cd) > 2 and len(cd[2]) == 2 and len(r["allowed"]) == 1 and r["allowed"][0] in (True, False) \
+                    and (cd[1] == "eq") == bool(r["allowed"][0]):
+                # `classify(..)? == Kind::V` holds: the classifier returned V, which it does on one path only — state that path
+                rep = classifier_conditions(P, cd[2], r["sw"], _depth)
             if rep is None and cd[0] == "val" and len(r["allowed"]) == 1 and r["allowed"][0] in (True, False):
                 alts_ = option_bool_alts(P, fn, r)
                 if alts_ is not None and len(alts_) == 1:
@@ -1478,6 +1482,63 @@ def control_conditions(P, fn, b, expand_helpers=True, _depth=0):
                 r["flag_at"] = g.flag_at
         res = res + extra
     return res
+
+
+def _peel_result(v):
+    """v without `?` / Ok / Continue wrappers and references: the call (or value) underneath."""
+    for _ in range(12):
+        if v[0] == "proj" and (v[2][0] == "v" or (v[2][0] == "f" and str(v[2][1]) == "0")):
+            v = v[1]
+        elif v[0] == "call" and isinstance(v[3], str) and (is_try_branch(v[3]) or transparent_arg(v[3]) == 0) and v[4]:
+            v = v[4][0]
+        elif v[0] == "agg" and v[1] == "adt" and re.search(r"(Result::Ok|ControlFlow::Continue)$", str(v[2])) and len(v[3]) == 1:
+            v = v[3][0][1]
+        else:
+            break
+    return v
+
+
+def classifier_conditions(P, operands, sw, depth):
+    """One operand is a literal payload-free variant V of a workspace enum, the other the result of a workspace function that
+    returns that enum (possibly in a Result): the control conditions of the function's *only* exit returning V, with its
+    parameters replaced by the call's arguments — what "the classifier said V" means.  None when this is not that shape."""
+    if depth >= 3:
+        return None
+    for lit, other in ((operands[0], operands[1]), (operands[1], operands[0])):
+        lit = _peel_result(lit)
+        if not (lit[0] == "agg" and lit[1] == "adt" and not lit[3] and isinstance(lit[2], str) and lit[2].startswith(("halo_pair::", "halo_factory::", "halo_router::", "haloswap::"))):
+            continue
+        cv = _peel_result(other)
+        if not (cv[0] == "call" and isinstance(cv[3], str)):
+            continue
+        g = P.fn(cv[3]) or P.fn(generic_path(cv[3]))
+        if g is None or g.body is None or g.derived or g.crate not in ("halo_pair", "halo_factory", "halo_router", "haloswap") or not _effect_free(P, g, 0):
+            continue
+        hits = []
+        for (b, i, cls, rv) in exit_sites(P, g):
+            if cls == "err":
+                continue
+            pv = _peel_result(rv)
+            if pv[0] == "agg" and pv[1] == "adt" and pv[2] == lit[2]:
+                hits.append(b)
+            elif not (pv[0] == "agg" and pv[1] == "adt" and isinstance(pv[2], str) and pv[2].rsplit("::", 1)[0] == lit[2].rsplit("::", 1)[0]):
+                return None         # an exit whose variant is not literal: it could be V as well
+        if len(hits) != 1:
+            return None
+        mapping = {("param", g.path, i): a for i, a in enumerate(cv[4])}
+        rep = []
+        for c2 in control_conditions(P, g, hits[0], True, depth + 1):
+            c3 = dict(c2)
+            cc = c3["cond"]
+            if cc[0] == "cmp":
+                c3["cond"] = ("cmp", cc[1], tuple(subst_params(a, mapping) for a in cc[2])) + tuple(cc[3:])
+            elif cc[0] in ("discr", "val", "flag"):
+                c3["cond"] = (cc[0], subst_params(cc[1], mapping)) + tuple(cc[2:])
+            c3["sw"] = sw
+            c3["via"] = "classifier"
+            rep.append(c3)
+        return rep
+    return None
 
 
 def _bool_predicate(P, g):
